@@ -262,7 +262,7 @@ COMPONENTS = {
     'circuitbreaker': {
         'spec_files': ['CircuitBreaker.tla', 'MC_CircuitBreaker.tla', 'Trace_CircuitBreaker.tla'],
         'mc': {'quick': [{'cfg': 'MC_CB_seq_q.cfg', 'module': 'MC_CircuitBreaker'}, {'cfg': 'MC_CB_conc_q.cfg', 'module': 'MC_CircuitBreaker'}],
-               'thorough': [{'cfg': 'MC_CB_seq.cfg', 'module': 'MC_CircuitBreaker', 'timeout': 3000}, {'cfg': 'MC_CB_conc_q.cfg', 'module': 'MC_CircuitBreaker'}]},
+               'thorough': [{'cfg': 'MC_CB_seq.cfg', 'module': 'MC_CircuitBreaker', 'timeout': 3000}, {'cfg': 'MC_CB_conc_t.cfg', 'module': 'MC_CircuitBreaker', 'timeout': 3000}]},
         'gen': {'cfg': 'Gen_CB_conc.cfg', 'module': 'MC_CircuitBreaker', 'num': {'quick': 400, 'thorough': 5000}, 'depth': 45},
         'trace_module': 'Trace_CircuitBreaker', 'trace_cfg_tmpl': 'Trace_CircuitBreaker.cfg.tmpl',
         'harness': 'circuitbreaker',
@@ -340,7 +340,7 @@ COMPONENTS = {
     },
     'cache': {
         'spec_files': ['Cache.tla', 'MC_Cache.tla', 'Trace_Cache.tla'],
-        'mc': {'quick': [{'cfg': 'MC_Cache_q.cfg', 'module': 'MC_Cache'}], 'thorough': [{'cfg': 'MC_Cache_q.cfg', 'module': 'MC_Cache'}]},
+        'mc': {'quick': [{'cfg': 'MC_Cache_q.cfg', 'module': 'MC_Cache'}], 'thorough': [{'cfg': 'MC_Cache_t.cfg', 'module': 'MC_Cache', 'timeout': 3000}]},
         'gen': {'cfg': 'Gen_Cache.cfg', 'module': 'MC_Cache', 'num': {'quick': 400, 'thorough': 5000}, 'depth': 60},
         'trace_module': 'Trace_Cache', 'trace_cfg_tmpl': 'Trace_Cache.cfg.tmpl',
         'harness': 'cache',
